@@ -11,8 +11,8 @@ from __future__ import annotations
 
 import ast
 
-from .. import nodewalk, paths, typestate
-from ..model import AnalysisError, Project
+from .. import nodewalk, paths, tables, typestate
+from ..model import AnalysisError, Project, walk_no_nested
 from ..report import Result, ctx_of
 from .common import site, src, status_str
 
@@ -40,7 +40,41 @@ def run(p: Project, tier: str) -> Result:
             r.analysed_functions.add(fi.key)
             check_tokens(r, w, root, fi, ps)
             check_waits(r, w, root, fi, ps)
+    check_transfers_go_through_the_edge(p, r)
     return r
+
+
+STORE_HANDLES = ('resourcename', 'inbuiltstore', 'belt')
+
+
+def check_transfers_go_through_the_edge(p, r):
+    """R5 (who-may-call): a node takes and delivers items through the Edge object - `edge.get(token)` / `edge.put(token, item)` - never through the
+    store behind it (`token.resourcename.get(...)`, `edge.inbuiltstore.put(...)`).  The edge-level call is more than a delegation: `ConveyorBelt.get`
+    / `.put` fire the events that wake the belt's own process (without them a stalled belt never resumes and the items behind are stranded), and
+    the edges refresh their statistics there.  Frozen exception: `Sink.behaviour` collects from the store (recorded for conveyors as D7 under C20)."""
+    r.rule('C10.R5', 'nodes transfer items through edge.get / edge.put, not through the store handle of the token or edge', 6)
+    n = 0
+    for ci in tables.node_classes(p):
+        for fi in ci.methods.values():
+            for c in walk_no_nested(fi.node):
+                if not (isinstance(c, ast.Call) and isinstance(c.func, ast.Attribute) and c.func.attr in ('get', 'put') and c.args):
+                    continue
+                recv = c.func.value
+                txt = ast.unparse(recv)
+                if isinstance(recv, ast.Attribute) and recv.attr in STORE_HANDLES:
+                    key = f'{fi.key}::transfer-through-edge({txt}.{c.func.attr})'
+                    if ci.name == 'Sink':
+                        r.ok('C10.R5', key, 'frozen exception: the Sink collects from the store (Buffer / Fleet only; conveyors: D7)', src(fi.module), c.lineno)
+                    else:
+                        r.fail('C10.R5', key, f'`{txt}.{c.func.attr}(...)` by-passes the edge: for a conveyor the belt process is never told that an item was '
+                                              f'{"taken" if c.func.attr == "get" else "put"} (a stalled belt does not resume, the items behind are stranded), and the '
+                                              f'edge statistics miss the transfer', src(fi.module), c.lineno)
+                    n += 1
+                elif ('edge' in txt or 'store' in txt) and 'stats' not in txt:
+                    r.ok('C10.R5', f'{fi.key}::transfer-through-edge({txt}.{c.func.attr})', 'edge-level transfer', src(fi.module), c.lineno)
+                    n += 1
+    if n < 6:
+        raise AnalysisError(f'C10.R5: only {n} get / put transfer sites found in the node classes')
 
 
 EDGE_CLASS_NAMES = ('Buffer', 'Fleet', 'ConveyorBelt')
